@@ -22,8 +22,10 @@ RULE = (
     "actual float inputs and the same prefix is re-fed through "
     "update_from_it in chunks (bit-identical state required); covariance "
     "and covariance matrix (2-4 series) likewise to depth 4/5; "
-    "estimate_from_repeats for all (rtol, tol_scale, min_samples, "
-    "max_samples) x every deterministic sample sequence; non-trivial = "
+    "samples of 33-500 values in every two-chunk split and some multi-chunk "
+    "splits (lists, arrays, generators); estimate_from_repeats for all "
+    "(rtol, tol_scale, min_samples, max_samples) x every deterministic "
+    "sample sequence at scales 1, 100 and 0.01; non-trivial = "
     "states with >= 2 samples that are not all equal"
 )
 ASSUMPTIONS = [
@@ -68,6 +70,18 @@ def tasks(tier):
         out.append({"part": "repeats", "rtol": rtol, "tol_scale": ts,
                     "min_samples": mn,
                     "max_list": list(range(1, 9 if tier == "thorough" else 7))})
+        # estimates whose magnitude is far from one
+        for scale in (100.0, 0.01):
+            out.append({"part": "repeats", "rtol": rtol, "tol_scale": ts,
+                        "min_samples": mn, "scale": scale,
+                        "max_list": list(range(2, 8 if tier == "thorough"
+                                               else 6))})
+    # long samples (up to 500 values) in every two-chunk split and a few
+    # multi-chunk splits, fed as lists, arrays and generators
+    for ri in range(len(REGIMES)):
+        for n in ((33, 64, 100) if tier == "quick" else (31, 32, 33, 64, 100,
+                                                        257, 500)):
+            out.append({"part": "long", "regime": ri, "n": n})
     return out
 
 
@@ -98,7 +112,69 @@ def run_task(task):
         return run_cov(task)
     if part == "matrix":
         return run_matrix(task)
+    if part == "long":
+        return run_long(task)
     return run_repeats(task)
+
+
+def run_long(task):
+    import numpy as np
+    from xyzpy.utils import RunningStatistics, RunningCovariance
+
+    al = alphabet(REGIMES[task["regime"]])
+    n = task["n"]
+    scale = max(abs(a) for a in al)
+    # a fixed, non-periodic pattern over the alphabet
+    seq = [al[(i * i + 3 * i // 2 + (i // 7)) % 5] for i in range(n)]
+    ys = [2.0 * seq[(i * 3 + 1) % n] - al[(i // 3) % 5] for i in range(n)]
+    out = {"states": 0, "transitions": 0, "nontrivial": 0, "vio": {},
+           "sample": {"part": "long", "regime": REGIMES[task["regime"]],
+                      "n": n}}
+    tag = "C19|long|regime%d|" % task["regime"]
+    k, mu, var = exact_stats(seq)
+    fx, fy = [Fraction(x) for x in seq], [Fraction(y) for y in ys]
+    mx, my = sum(fx) / n, sum(fy) / n
+    cov = float(sum((a - mx) * (b - my) for a, b in zip(fx, fy)) / n)
+    vx = float(sum((a - mx) ** 2 for a in fx) / n) ** 0.5
+    vy = float(sum((b - my) ** 2 for b in fy) / n) ** 0.5
+    cbound = 8 * n * EPS * ((vx + abs(float(mx))) * (vy + abs(float(my)))) \
+        + (EPS * scale * 3) ** 2 * 4 * n
+    splits = [[s_] for s_ in range(0, n + 1)]
+    splits += [[n // 3, 2 * n // 3], [1, n - 1], [32, 33] if n > 33 else [1],
+               list(range(5, n, 5))]
+    for si, cut in enumerate(splits):
+        bounds = [0] + list(cut) + [n]
+        forms = ("list", "array", "gen")
+        rs = RunningStatistics()
+        rc = RunningCovariance()
+        for ci in range(len(bounds) - 1):
+            a, b = bounds[ci], bounds[ci + 1]
+            form = forms[(si + ci) % 3]
+            cx, cy = seq[a:b], ys[a:b]
+            if form == "array":
+                cx, cy = np.array(cx), np.array(cy)
+            elif form == "gen":
+                cx, cy = iter(cx), iter(cy)
+            rs.update_from_it(cx)
+            if form == "gen":
+                cx = iter(seq[a:b])
+            rc.update_from_it(cx, cy)
+            out["transitions"] += 1
+        out["states"] += 1
+        out["nontrivial"] += 1
+        if rs.count != n or abs(rs.mean - float(mu)) > \
+                4 * n * EPS * scale + 1e-300 or not close_var(
+                    rs.var, var, mu, n, scale):
+            out["vio"].setdefault(tag + "chunking", (
+                {"n": n, "cuts": cut}, "%d values fed in chunks cut at %r: "
+                "count %r mean %r var %r, whole sample %d %r %r" % (
+                    n, cut, rs.count, rs.mean, rs.var, n, float(mu),
+                    float(var))))
+        if rc.count != n or abs(rc.covar - cov) > cbound:
+            out["vio"].setdefault(tag + "cov-chunking", (
+                {"n": n, "cuts": cut}, "%d pairs fed in chunks cut at %r: "
+                "covar %r, whole sample %r" % (n, cut, rc.covar, cov)))
+    return fin(out)
 
 
 def run_stats(task):
@@ -339,8 +415,10 @@ def run_repeats(task):
            "sample": None, "borderline": 0}
     rtol, ts, mn = task["rtol"], task["tol_scale"], task["min_samples"]
     tag = "C19|repeats|"
+    sc = task.get("scale", 1.0)
     for mx in task["max_list"]:
         vals = [1.0, 1.1, 0.9, 0.0, -1.0] if mx <= 5 else [1.0, 1.1, 0.0]
+        vals = [v * sc for v in vals]
         for seq in itertools.product(vals, repeat=mx):
             calls = [0]
 
@@ -366,8 +444,8 @@ def run_repeats(task):
                     case, "count %r, calls %d, limit %d" % (rs.count, n, mx)))
                 continue
             k, mu, var = exact_stats(seq[:n])
-            if abs(rs.mean - float(mu)) > 1e-12 or abs(
-                    rs.var - float(var)) > 1e-12:
+            if abs(rs.mean - float(mu)) > 1e-12 * max(1.0, sc) or abs(
+                    rs.var - float(var)) > 1e-12 * max(1.0, sc * sc):
                 out["vio"].setdefault(tag + "stats", (
                     case, "statistics are not those of the drawn samples"))
             if n < min(mn, mx):
@@ -426,7 +504,8 @@ def replay(case):
     for t in tasks("thorough"):
         if t["part"] != part:
             continue
-        if part in ("stats", "cov") and "regime%d" % t["regime"] not in key:
+        if part in ("stats", "cov", "long") and \
+                "regime%d" % t["regime"] not in key:
             continue
         out = run_task(t)
         vio += [(k, w) for k, w, c in out["vio"]]
